@@ -128,10 +128,35 @@ def structure_rules(repo, res):
             if r["k"] == "Path":
                 rep_inserts.append((c, r["path"]))
     rep_name = rep_inserts[0][1] if len({n for _, n in rep_inserts}) == 1 else None
+    # ... or the map is built by a helper of the module (extracted from here): the helper holds the `insert(state, <block>.min())`, and the
+    # map is what the helper returns
+    rep_fn, rep_helper, rep_envs, rep_pm, rep_call = fn, None, envs, pm, None
+    if not rep_inserts:
+        for h in repo.fns_in(fn.module):
+            if h is fn or not list(P.find_calls(fn.body, names={h.name})):
+                continue
+            he = A.collect_envs(h)
+            found = []
+            for c in P.find_calls(h.body, methods={"insert"}):
+                if len(c["args"]) == 2 and "min()" in A.show(A.resolve(c["args"][1], he.get(id(c)))).replace(" ", ""):
+                    r = c["recv"]
+                    while r["k"] in ("Ref", "Unary", "Paren"):
+                        r = r["expr"]
+                    if r["k"] == "Path":
+                        found.append((c, r["path"]))
+            if found:
+                rep_inserts, rep_helper, rep_fn, rep_envs, rep_pm = found, h, h, he, A.parent_map(h.body)
+                rep_call = list(P.find_calls(fn.body, names={h.name}))[0]
+                break
 
     def rep_get(p, keypred):
         p = P.peel(p)
-        return p[0] == "mcall" and p[1] == "get" and p[2][0] == "local" and p[2][1] == rep_name and keypred(p[3][0])
+        if not (p[0] == "mcall" and p[1] == "get" and keypred(p[3][0])):
+            return False
+        m = P.peel(p[2])
+        if rep_helper is not None:
+            return m[0] == "call" and P.last(m[1]) == rep_helper.name
+        return m[0] == "local" and m[1] == rep_name
 
     ks = [c for c in P.find_calls(fn.body, names={"keep_only_states_with_input_transitions"})]
     if ks:
@@ -160,8 +185,8 @@ def structure_rules(repo, res):
     ok = len(reps) == 1
     if ok:
         c = reps[0]
-        a = [A.resolve(x, envs.get(id(c))) for x in c["args"]]
-        loops = [g for g in A.guards_of(c, pm) if g[0]["k"] == "ForLoop"]
+        a = [A.resolve(x, rep_envs.get(id(c))) for x in c["args"]]
+        loops = [g for g in A.guards_of(c, rep_pm) if g[0]["k"] == "ForLoop"]
         ok = len(loops) == 2 and "min()" in A.show(a[1]).replace(" ", "") and P.peel(a[0])[0] == "call" and "elem" in A.show(a[0])
         if ok:
             # the outer loop walks the partition itself: a local container (the one the refinement loop edits), not a filtered view
@@ -169,8 +194,15 @@ def structure_rules(repo, res):
             while ie["k"] in ("Ref", "Unary", "Paren") or (ie["k"] == "MethodCall" and ie["method"] in ("iter", "into_iter") and not ie["args"]):
                 ie = ie["expr"] if ie["k"] != "MethodCall" else ie["recv"]
             ok = False
+            if rep_helper is not None and ie["k"] == "Path":
+                # inside the helper the partition is a parameter: take what the caller passes for it
+                pi = next((i for i, prm in enumerate(rep_helper.params) if prm.get("name") == ie["path"]), None)
+                if pi is not None and pi < len(rep_call["args"]):
+                    ie = rep_call["args"][pi]
+                    while ie["k"] in ("Ref", "Unary", "Paren") or (ie["k"] == "MethodCall" and ie["method"] in ("iter", "into_iter") and not ie["args"]):
+                        ie = ie["expr"] if ie["k"] != "MethodCall" else ie["recv"]
             if ie["k"] == "Path" and "::" not in ie["path"]:
-                df = (envs.get(id(loops[1][0])) or A.fn_env(fn)).get(ie["path"])
+                df = (envs.get(id(rep_call)) if rep_call is not None else (envs.get(id(loops[1][0])) or A.fn_env(fn))).get(ie["path"])
                 edited = [c for c in P.find_calls(fn.body, methods={"remove", "insert"}) if c["recv"]["k"] == "Path" and c["recv"]["path"] == ie["path"]]
                 ok = df is not None and df.kind == "let" and len(edited) >= 2
     res.check(ok, "REP", f"REP:{fq}:representative-is-min-of-block", "for every block of `partitions`, every member maps to the block's min()", fn.loc())
